@@ -17,11 +17,57 @@ use gamedig::GDErrorKind;
 enum Sec {
     Valid,
     Silent,
+    /// unrelated garbage (AB CD)
     Malformed,
     /// Valve: the server issues a challenge and then stays silent; Unreal 2: the request cannot be sent
     ChallengeThenSilent,
+    /// Valve: the real reply cut after the first count byte (the announced count runs past the end); Unreal 2: the reply
+    /// cut inside its header
+    Overrun,
+    /// Valve: the real reply as a bzip2-compressed split packet whose checksum does not match; Unreal 2: an undefined reply kind
+    BadEnvelope,
+    /// Valve: the first name / rule key is not valid UTF-8; Unreal 2: the real reply cut down to one byte
+    BadText,
 }
-const SECS: [Sec; 4] = [Sec::Valid, Sec::Silent, Sec::Malformed, Sec::ChallengeThenSilent];
+const SECS: [Sec; 7] = [Sec::Valid, Sec::Silent, Sec::Malformed, Sec::ChallengeThenSilent, Sec::Overrun, Sec::BadEnvelope, Sec::BadText];
+
+impl Sec {
+    /// a reply arrives but the format rejects it
+    fn malformed(self) -> bool { matches!(self, Sec::Malformed | Sec::Overrun | Sec::BadEnvelope | Sec::BadText) }
+    fn datagram(self, valve: bool, head: &[u8]) -> Vec<u8> {
+        match (self, valve) {
+            // (both clients are lenient about lists that stop early inside the body - rules replies are often cut by
+            // servers - so the cut is made where the format leaves no room for leniency)
+            (Sec::Overrun, true) => head[.. head.len().min(6)].to_vec(),
+            (Sec::Overrun, false) => head[.. head.len().min(4)].to_vec(),
+            (Sec::BadEnvelope, true) => {
+                let mut parts = rv::frame(head, &rv::Framing::Source { cuts: vec![], compressed: true, size_field: true, exact_size: false, id: 0x77 });
+                let mut d = parts.remove(0);
+                // FE FF FF FF, id (4), total, number, size (2), decompressed size (4), crc32 (4)
+                if d.len() > 19 {
+                    d[16] ^= 0xff;
+                }
+                d
+            }
+            (Sec::BadEnvelope, false) => {
+                let mut d = head.to_vec();
+                if d.len() > 4 {
+                    d[4] = 0x7f;
+                }
+                d
+            }
+            (Sec::BadText, true) => {
+                let mut d = head.to_vec();
+                if d.len() > 8 {
+                    d[7] = 0xff;
+                }
+                d
+            }
+            (Sec::BadText, false) => head[.. 1].to_vec(),
+            _ => GARBAGE.to_vec(),
+        }
+    }
+}
 
 /// Fixed (not explored) per-section behaviour.
 struct Sections {
@@ -56,7 +102,7 @@ impl Policy for Sections {
         match self.outcome[self.cur] {
             Sec::Valid => Pick::Head,
             Sec::Silent if n == 0 => Pick::Timeout { drop_all: true },
-            Sec::Malformed if n == 0 => Pick::Custom { data: GARBAGE.to_vec(), consume: true },
+            m if m.malformed() && n == 0 => Pick::Custom { data: m.datagram(self.valve, &pt.queue[0]), consume: true },
             Sec::ChallengeThenSilent if self.valve && n == 1 => Pick::Timeout { drop_all: true },
             Sec::ChallengeThenSilent if !self.valve && n == 0 => Pick::Timeout { drop_all: true },
             _ => Pick::Head,
@@ -96,6 +142,9 @@ fn section_kind(sec: Sec) -> &'static str {
         Sec::Valid => "valid",
         Sec::Silent => "silent",
         Sec::Malformed => "malformed",
+        Sec::Overrun => "malformed:overrun",
+        Sec::BadEnvelope => "malformed:bad-envelope",
+        Sec::BadText => "malformed:bad-text",
         Sec::ChallengeThenSilent => "challenge-then-silent/unsendable",
     }
 }
@@ -106,8 +155,9 @@ impl Prop for C11 {
     fn case_label(&self, _tier: Tier, idx: usize) -> String { cases()[idx].0.clone() }
     fn rule(&self) -> String {
         "full product, one execution per configuration: Valve: 9 (players, rules) toggle pairs x section outcomes {valid, silent, \
-         malformed, challenge-then-silent}^2 x server app id {main, dedicated, other, engine without expectation} x check_app_id \
-         on/off = 2304; Unreal 2: 9 toggle pairs x {valid, silent, malformed, silent}^2 = 144. Oracle: Skip => that request kind \
+         challenge-then-silent, malformed in four ways: garbage / count running past the end / bzip2 split packet with a wrong \
+         checksum / invalid UTF-8}^2 x server app id {main, dedicated, other, engine without expectation} x check_app_id \
+         on/off = 7056; Unreal 2: 9 toggle pairs x {valid, silent, unsendable, garbage, string overrun, undefined kind, one byte}^2 = 441. Oracle: Skip => that request kind \
          never appears on the wire and the section is absent/empty; Try + failure => result equals the all-valid result with \
          that section absent; Enforce + failure => Err of the section's failure class (receive/send for silence, non-timeout for \
          malformed); app id: check on and id not among the expected => Err(BadGame), otherwise the id never causes failure. \
@@ -165,7 +215,7 @@ impl Prop for C11 {
                                         if val_ok {
                                             if which == 0 { resp.players = full.players.clone() } else { resp.rules = full.rules.clone() }
                                         } else {
-                                            failed = Some(if *so == Sec::Malformed { "non-timeout" } else { "timeout" });
+                                            failed = Some(if so.malformed() { "non-timeout" } else { "timeout" });
                                         }
                                     }
                                 }
@@ -235,7 +285,7 @@ impl Prop for C11 {
                                 GatherToggle::Try => val_ok,
                                 GatherToggle::Enforce => {
                                     if !val_ok {
-                                        failed = Some(if *so == Sec::Malformed { "non-timeout" } else { "timeout" });
+                                        failed = Some(if so.malformed() { "non-timeout" } else { "timeout" });
                                     }
                                     val_ok
                                 }
